@@ -35,14 +35,14 @@ def run(tier, seed):
     v.sample({"connections": [{k: e[k] for k in e if k not in ("t_us", "src", "seq")} for e in conn[:4]],
               "configurations": sorted({"{kind}/{transport} tls={tls} mux={mux} enc={enc} comp={comp} limit={limit} pool={pool} pp={pp} shared={shared}".format(**e["cfg"]) for e in conn})})
     v.add_cov(evaluations=len(conn), distinct_nontrivial=len([e for e in conn if e.get("dial_ok") and e.get("up_written", 0) + e.get("down_got", 0) > 0]),
-              rule="each evaluation is one user connection through a real frps / frpc pair (and a visitor frpc for stcp) in one sampled point of the option lattice kind x encryption x compression x "
+              rule="each evaluation is one user connection through a real frps / frpc pair (and a visitor frpc for stcp) in one sampled point of the option lattice kind tcp/stcp/https/tcpmux/xtcp (an xtcp visitor that falls back to its stcp visitor) x encryption x compression x "
                    "limit side x mux x transport x tls x pool x proxy-protocol x shared vhost port, two proxies with distinct backends, self-describing generator streams in both directions "
                    "(sizes 0..3 MiB, random / zero / text content, write chunks 1 B..64 KiB) and one of four close patterns; non-trivial = connections that moved at least one byte",
               driver_stats=stats)
     v.assumptions += ["content is checked by regenerating each stream from the header the reader received (kind, stream id, nonce); counters and closure are judged by TLC on the Tunnel specification",
                       "completeness at close is demanded for tcp / websocket / quic control transports; kcp-go drops unsent data on Close and is only required to keep prefix integrity and to propagate the close",
                       "bounded time = 8 s for the propagation of a close, 25 s for the delivery of a stream; rate bound checked on 100 ms samples with a slack of 300 ms x rate + 128 KiB for reader-side buffering",
-                      "xtcp (hole punching) is not driven: on loopback it falls back to the stcp path, which is driven"]
+                      "xtcp hole punching itself needs a STUN server and is not driven: the xtcp visitor's hand-over of the user connection to its fall-back stcp visitor is"]
     v.finish()
 
 
